@@ -124,6 +124,16 @@ func main() {
 		workerMain()
 		return
 	}
+	if dir := os.Getenv("C11_SEEDBUILD"); dir != "" {
+		relicx.Quiet()
+		sb := buildSeeds(dir)
+		blob, err := json.Marshal(sb.seeds)
+		must(err)
+		must(os.WriteFile(filepath.Join(dir, "seeds.json"), blob, 0o644))
+		nb, _ := json.Marshal(sb.notes)
+		must(os.WriteFile(filepath.Join(dir, "notes.json"), nb, 0o644))
+		return
+	}
 	run := vlib.NewRun("C11", "fault_enumeration")
 	relicx.Quiet()
 	base := "/dev/shm"
@@ -158,10 +168,12 @@ func main() {
 	}
 	e.deadline = time.Now().Add(budget)
 
-	sb := buildSeeds(tmp)
-	e.seeds = sb.seeds
-	for _, n := range sb.notes {
-		fmt.Println("C11 seed note:", n)
+	// Seeds are built (valid artifacts signed by the real pipeline) in a child
+	// process: if the tree under test crashes or hangs on a VALID artifact the
+	// harness must still report instead of dying with it.
+	if !e.buildSeedsIsolated() {
+		finish()
+		return
 	}
 	// single-case replay
 	for i, a := range os.Args {
@@ -184,6 +196,49 @@ func main() {
 	finish()
 }
 
+func (e *engine) buildSeedsIsolated() bool {
+	cmd := exec.Command(os.Args[0])
+	cmd.Env = append(os.Environ(), "C11_SEEDBUILD="+e.tmp)
+	var errb bytes.Buffer
+	cmd.Stderr = &errb
+	cmd.Stdout = &errb
+	must(cmd.Start())
+	done := make(chan error, 1)
+	go func() { done <- cmd.Wait() }()
+	var err error
+	select {
+	case err = <-done:
+	case <-time.After(5 * time.Minute):
+		_ = cmd.Process.Signal(syscall.SIGQUIT)
+		time.Sleep(2 * time.Second)
+		_ = cmd.Process.Kill()
+		<-done
+		err = fmt.Errorf("no result within 5 minutes")
+	}
+	if err != nil {
+		reason, top, frames, msg := parseDeath(errb.String())
+		e.run.Eval(1)
+		e.run.Violation("crash:seed-build:"+reason+"@"+top, fmt.Sprintf("building the seed set (signing VALID artifacts with the real pipeline) failed: %v: %s at %s", err, msg, strings.Join(frames, " < ")), map[string]any{"stderr": firstLines(errb.String(), 60)})
+		return false
+	}
+	blob, err := os.ReadFile(filepath.Join(e.tmp, "seeds.json"))
+	must(err)
+	must(json.Unmarshal(blob, &e.seeds))
+	for _, s := range e.seeds {
+		s.data, err = os.ReadFile(s.File)
+		must(err)
+	}
+	var notes []string
+	if nb, err := os.ReadFile(filepath.Join(e.tmp, "notes.json")); err == nil {
+		_ = json.Unmarshal(nb, &notes)
+	}
+	for _, n := range notes {
+		fmt.Println("C11 seed note:", n)
+	}
+	e.run.Set("seed_notes", notes)
+	return true
+}
+
 // ------------------------------------------------------------- regression corpus
 
 type reproFile struct {
@@ -201,6 +256,7 @@ type reproFile struct {
 	Frames   []string          `json:"frames"`
 	Size     int               `json:"size"`
 	Input    string            `json:"input_b64,omitempty"`
+	Bin      string            `json:"bin,omitempty"` // file under repro/ holding the input (shared between keys with identical input)
 	Desc     string            `json:"desc"`
 }
 
@@ -227,7 +283,11 @@ func (e *engine) loadRepro(path string) {
 		data, err = base64.StdEncoding.DecodeString(rf.Input)
 		must(err)
 	} else {
-		data, err = os.ReadFile(strings.TrimSuffix(path, ".json") + ".bin")
+		bin := strings.TrimSuffix(path, ".json") + ".bin"
+		if rf.Bin != "" {
+			bin = filepath.Join(filepath.Dir(path), rf.Bin)
+		}
+		data, err = os.ReadFile(bin)
 		if err != nil {
 			fmt.Println("C11: reproducer without input:", path)
 			return
@@ -959,7 +1019,7 @@ func (e *engine) handleRunaway(id, entry int, stderr string) {
 		typ = seed.Kind
 	}
 	top, frames, msg := runawaySite(stderr)
-	key := "alloc:" + entryClass(ename) + ":" + typ + ":" + top
+	key := allocKey(ename, typ, top)
 	e.run.Eval(1)
 	e.mu.Lock()
 	nconf := e.confirmed[key]
@@ -982,7 +1042,7 @@ func (e *engine) handleRunaway(id, entry int, stderr string) {
 		return
 	}
 	top, frames, msg = runawaySite(r2.stderr)
-	key = "alloc:" + entryClass(ename) + ":" + typ + ":" + top
+	key = allocKey(ename, typ, top)
 	e.mu.Lock()
 	e.confirmed[key]++
 	e.mu.Unlock()
@@ -998,10 +1058,19 @@ func (e *engine) typeOf(id int) string {
 	return seed.Kind
 }
 
+// allocKey: narrow (allocation site = top relic function) when the site is
+// known, else by package type.
+func allocKey(entry, typ, site string) string {
+	if site != "" {
+		return "alloc:" + entryClass(entry) + ":" + site
+	}
+	return "alloc:" + entryClass(entry) + ":" + typ
+}
+
 func crashKey(entry, typ, reason, top string) string {
 	switch reason {
 	case "runaway":
-		return "alloc:" + entryClass(entry) + ":" + typ + ":" + top
+		return allocKey(entry, typ, top)
 	case "goroutine-panic", "fatal":
 		if top != "" {
 			return "crash:" + entryClass(entry) + ":" + top
@@ -1100,13 +1169,10 @@ func (e *engine) confirmAlloc(s allocSuspect) {
 		typ = seed.Kind
 	}
 	var site panicInfo
-	if len(line) > 9 && line[9] != "" && line[3] != "panic" {
+	if len(line) > 9 && line[9] != "" {
 		_ = json.Unmarshal([]byte(line[9]), &site)
 	}
-	fkey := "alloc:" + entryClass(ename) + ":" + typ
-	if site.Func != "" {
-		fkey += ":" + site.Func
-	}
+	fkey := allocKey(ename, typ, site.AllocSite)
 	e.run.Outcome(entryClass(ename) + ":alloc")
 	e.mu.Lock()
 	e.allocSite[akey] = fkey
@@ -1116,7 +1182,7 @@ func (e *engine) confirmAlloc(s allocSuspect) {
 	}
 	e.mu.Unlock()
 	e.addFinding(fkey, ename, s.id, size,
-		fmt.Sprintf("heap grew by %d MiB (allocated %d MiB in total) for a %d-byte input; bound %d MiB", hs>>20, talloc>>20, size, bound>>20), site.Frames, "measured alone in a fresh worker")
+		fmt.Sprintf("heap grew by %d MiB (allocated %d MiB in total) for a %d-byte input; bound %d MiB", hs>>20, talloc>>20, size, bound>>20), site.AllocFrames, "measured alone in a fresh worker")
 }
 
 // ------------------------------------------------------------- report
@@ -1192,11 +1258,20 @@ func (e *engine) report() {
 			}
 			jp := filepath.Join(reproDir, name+".json")
 			if _, err := os.Stat(jp); err != nil {
-				if len(input) <= 64<<10 {
-					must(os.WriteFile(filepath.Join(reproDir, name+".bin"), input, 0o644))
+				total, same := reproInventory(input)
+				switch {
+				case same != "":
+					rf.Bin = same
+				case len(input) <= 64<<10 && total+len(input) <= 1900<<10:
+					rf.Bin = name + ".bin"
+					must(os.WriteFile(filepath.Join(reproDir, rf.Bin), input, 0o644))
+				default:
+					fmt.Printf("C11: reproducer for %s not stored (%d bytes; corpus holds %d): use the replay file\n", k, len(input), total)
 				}
-				jb, _ := json.MarshalIndent(rf, "", " ")
-				must(os.WriteFile(jp, append(jb, '\n'), 0o644))
+				if rf.Bin != "" {
+					jb, _ := json.MarshalIndent(rf, "", " ")
+					must(os.WriteFile(jp, append(jb, '\n'), 0o644))
+				}
 			}
 		}
 		if knownExtra[k] {
@@ -1248,6 +1323,26 @@ func (e *engine) report() {
 		run.Sample(map[string]any{"seed": e.seeds[c.seed].Name, "mutation": c.spec, "meaning": describeMutation(e.seeds[c.seed], c.spec)})
 		n++
 	}
+}
+
+// reproInventory returns the corpus size in bytes and the name of a stored
+// input identical to `input`, if any.
+func reproInventory(input []byte) (total int, same string) {
+	ents, _ := os.ReadDir(reproDir)
+	for _, ent := range ents {
+		if !strings.HasSuffix(ent.Name(), ".bin") {
+			continue
+		}
+		b, err := os.ReadFile(filepath.Join(reproDir, ent.Name()))
+		if err != nil {
+			continue
+		}
+		total += len(b)
+		if same == "" && bytes.Equal(b, input) {
+			same = ent.Name()
+		}
+	}
+	return
 }
 
 func min(a, b int) int {
